@@ -7,6 +7,8 @@ fail=0
 for d in seeded/*/; do
   id=$(basename "$d")
   [ -f "$d/meta.json" ] || continue
+  # optional: RECHECK_FROM=<id> skips everything before that id
+  if [ -n "${RECHECK_FROM:-}" ] && [[ "$id" < "$RECHECK_FROM" ]]; then continue; fi
   prop=$(python3 -c "import json;print(json.load(open('$d/meta.json'))['property'])")
   # a change written against one property may be the business of another check (see its meta.json)
   alt=$(python3 -c "import json;m=json.load(open('$d/meta.json'));c=[x.split('/')[0] for x in m.get('caught_by',[])];print(c[0] if c and '$prop' not in c else '$prop')")
